@@ -268,8 +268,8 @@ def oracle_addbasis(ctx, xc, crys, u, W):
                 if np.abs(dv - np.round(dv)).max() < 1e-3: return False
     try:
         c2 = crys.addbasis(W)
-    except ArithmeticError:
-        ctx.count('addbasis:reduce-error(C19)'); return
+    except (ArithmeticError, RecursionError):
+        ctx.count('addbasis:reduce/minlattice-error(C19)'); return
     except Exception as e:
         ctx.violation('addbasis-raises:%s' % type(e).__name__, 'addbasis(Wyckoffpos(u)) raises %r' % (e,), _replay(xc, dict(u=[str(x) for x in u])))
         return
@@ -342,8 +342,8 @@ def run_crystals(ctx, n_random, nprng, t_run, budget):
             ctx.note('budget: crystal list truncated after %d cases' % ctx.evaluations); break
         try:
             crys = X.build(xc)
-        except ArithmeticError:
-            ctx.count('ctor:ArithmeticError(reduce; C19)'); continue
+        except (ArithmeticError, RecursionError) as e:
+            ctx.count('ctor:%s(reduce/minlattice; C19)' % type(e).__name__); continue
         nontriv = oracle_sites(ctx, xc, crys)
         oracle_bases(ctx, xc, crys)
         try:
@@ -580,7 +580,7 @@ def run(ctx):
     budget = 115.0 if ctx.quick else 1250.0
     if not nat: ctx.note('native driver could not be built: interpreter fallback')
     l1, p1 = run_exhaustive(ctx, nprng, t_run, budget)
-    n_random = (25 if ctx.quick else 400) if nat else 4
+    n_random = (25 if ctx.quick else 1500) if nat else 4
     l2, p2 = run_crystals(ctx, n_random, nprng, t_run, budget)
     if len(p2) < 30:
         import vcheck
@@ -598,7 +598,7 @@ def search(ctx, reasons):
         xc = X.random_xc(ctx.rng, nprng, rotate=0.8)
         try:
             crys = X.build(xc)
-        except ArithmeticError:
+        except (ArithmeticError, RecursionError):
             continue
         oracle_sites(ctx, xc, crys)
         oracle_bases(ctx, xc, crys)
